@@ -53,9 +53,10 @@ class Parser(Emitter):
         fn = self.functions.get(name)
         result = {'value': None}  # get around 2.7 not having nonlocal
         if fn is None:
+            if not formulas.is_supported(name):
+                # get_for() raises SyntaxError, which ply takes for a request to start error recovery
+                raise formulaserror.NAME
             fn = formulas.get_for(name)
-        if fn is None:
-            raise formulaserror.NAME
         try:
             result['value'] = fn(*args)
         except formulaserror.XLError as e:
